@@ -65,7 +65,7 @@ theorem fromBytes_chunk {limit : Nat} {bs : Bytes} {s : Stored} (h : fromBytes l
 
 /-- the compressed form of a change chunk reads exactly like the plain form (no property of DEFLATE
     is used beyond the hypothesis that these bytes inflate to that body) -/
-theorem fromBytes_compressed (limit : Nat) (z body : Bytes) (hinf : Inflate.inflate z = some body)
+theorem fromBytes_compressed (limit : Nat) (z body : Bytes) (hinf : Inflate.inflateExact z = some body)
     (hz : z.length < 2 ^ 64) (hb : body.length < 2 ^ 64) :
     fromBytes limit (encodeChunkWith ((chunkHash 1 body).take 4) 2 z) = fromBytes limit (encodeChunk 1 body) := by
   have h1 := Stored.parse (bodyOk := fun _ _ => true) (s := .compressed z body) ⟨hz, hinf, rfl⟩ []
